@@ -59,7 +59,7 @@ RT_FUNCS = ["ldb_writer_init", "ldb_writer_add_record", "emit_physical_record", 
             "ldb_buffer_append", "ldb_buffer_set"]
 
 
-def rt_obl(letter, label, mode, start, lens, tier, timeout=400):
+def rt_obl(letter, label, mode, start, lens, tier, timeout=400, pos=None):
     total = log_total(start, lens)
     tail = total - start
     maxn = max(lens)
@@ -72,21 +72,30 @@ def rt_obl(letter, label, mode, start, lens, tier, timeout=400):
         defs["VP_N3"] = lens[2]
     where = "0" if start == 0 else "32768-%d" % (BLK - start)
     nm = "%s.%s-at%s-len%s" % (letter, label, where, "_".join(str(x) for x in lens))
+    if pos is not None:
+        defs["VP_POS"] = pos
+        nm += "-P%d" % pos
     desc = {0: "writer output == reference encoder byte for byte; reader returns exactly the written records, then EOF, no report",
             1: "file cut at a symbolic length: reader returns exactly the records wholly before the cut, then EOF, no report",
+            2: "one arbitrary byte altered in the first block: reader returns exactly the records before the damage "
+               "and those of the next intact block (nothing that was not written), and reports a drop",
             3: "reader state after returning record 1 == the position model of readerpos.h"}[mode]
+    rr_bound = 3 if mode != 2 else 2 * len(lens) + 2  # damaged block: bad record + orphan fragments
     return Obl(nm, "C15/roundtrip.c", real=RT_REAL, kit=RT_KIT, defs=defs,
                unwind=tail + 2,
                # reader loops: bounds = what a *feasible* run needs (<= 2 fragments per record, one block switch
                # + the EOF read); the unwinding assertions prove that no feasible run needs more
-               unwindset={"read_physical_record.0": 3, "ldb_reader_read_record.0": 3,
-                          "memcpy.0": max(7, maxn) + 1, "ldb_crc32c_extend.0": maxn + 3},
+               unwindset={"read_physical_record.0": 3, "ldb_reader_read_record.0": rr_bound,
+                          # mode 2: a damaged length field can announce up to the rest of the block
+                          "memcpy.0": (max(7, maxn) + 1) if mode != 2 else tail,
+                          "ldb_crc32c_extend.0": (maxn + 3) if mode != 2 else tail},
                restrict_fp=["report_drop.function_pointer_call.1/vp_corruption"],
                functions=RT_FUNCS, tier=tier, timeout=timeout, cost=60 + tail,
                desc=desc,
                bounds="%d record(s) of %s bytes, symbolic contents, appended at file length %s%s" % (
                    len(lens), "/".join(str(x) for x in lens), where,
-                   "; cut anywhere in the %d bytes written" % tail if mode == 1 else ""))
+                   "; cut anywhere in the %d bytes written" % tail if mode == 1 else
+                   "; byte %s of the written bytes xor any non-zero mask" % pos if mode == 2 else ""))
 
 
 C_QUICK = [(0, (0,)), (0, (24, 7)), (BLK - 1, (5, 3)), (BLK - 6, (5, 3)), (BLK - 7, (5, 3)), (BLK - 7, (0,)),
@@ -145,6 +154,86 @@ for k in range(1, 15):
     for n in (8, 12, 16):
         if (n, BLK - k) not in D_QUICK:
             OBLIGATIONS.append(rd_obl(n, BLK - k, "thorough", timeout=1800))
+
+
+# ------------------------------------------------------------- k. CRC kernel
+CRC_FUNCS = ["ldb_crc32c_extend", "crc32c_generic", "round_up"]
+
+
+def crc_obl(name, mode, tier, defs=None, unwind=40, timeout=300, cost=30, desc="", bounds="", replace=True):
+    d = {"VP_MODE": mode}
+    d.update(defs or {})
+    return Obl(name, "C15/crc.c", kit=["vp_nondet.c"], include_real=["util/crc32c.c"], defs=d,
+               unwind=unwind, sat="cadical", tier=tier, timeout=timeout, cost=cost,
+               # the data pointer's misalignment is explicit (VP_MIS); see harness/C15/crc.c
+               replace_calls=["round_up:vp_round_up"] if replace else [],
+               functions=CRC_FUNCS, desc=desc, bounds=bounds)
+
+
+OBLIGATIONS.append(crc_obl("k.tables-all-entries", 0, "quick", unwind=130,
+                           desc="byte_ext_table and stride_ext_table_0..3: every entry == bitwise definition "
+                                "(register advanced by 1 resp. 16 zero bytes)", bounds="all 256 entries of the 5 tables"))
+OBLIGATIONS.append(crc_obl("k.reference-byte-step", 5, "quick", unwind=10,
+                           desc="the byte-wise form of the harness reference == 8 bit-serial CRC division steps",
+                           bounds="every 32-bit register value and input byte"))
+OBLIGATIONS.append(crc_obl("k.round-up-arith", 4, "quick", unwind=4, replace=False,
+                           desc="round_up(p,4|8) is the smallest aligned address >= p and depends only on p mod N "
+                                "(justifies the explicit-misalignment model used by the other k obligations)",
+                           bounds="every 64-bit address value <= 2^64-16"))
+OBLIGATIONS.append(crc_obl("k.standard-vectors", 3, "quick", unwind=60,
+                           desc="RFC 3720 B.4 vectors (zeros, ones, ascending, descending, iSCSI PDU), lcdb's self-test "
+                                "vector and extend(value(A),B)==value(AB), for the real routine and for the bitwise reference",
+                           bounds="7 concrete vectors of 13..48 bytes"))
+for ln in range(0, 20):
+    for mis in range(0, 4):
+        if ln > 16 and mis != 0:
+            continue
+        OBLIGATIONS.append(crc_obl(
+            "k.extend-L%d-M%d" % (ln, mis), 1, "quick" if ln <= 8 else "thorough",
+            defs={"VP_LEN": ln, "VP_MIS": mis}, unwind=ln + 12,
+            timeout=300 if ln <= 8 else 1800, cost=20 + 8 * ln,
+            desc="ldb_crc32c_extend (portable path) == bitwise CRC-32C for fully symbolic data and initial crc",
+            bounds="length %d, data pointer %d mod 4, all data and all 2^32 initial values" % (ln, mis)))
+
+W_QUICK = {(20, 0): [0, 3, 4, 15, 16, 19], (37, 1): [0, 2, 3, 18, 19, 34, 35, 36], (70, 3): [0, 1, 16, 17, 33, 48, 65, 69]}
+for (ln, mis), poss in sorted(W_QUICK.items()):
+    for pos in poss:
+        OBLIGATIONS.append(crc_obl(
+            "k.window1-L%d-M%d-P%d" % (ln, mis, pos), 2, "quick",
+            defs={"VP_LEN": ln, "VP_MIS": mis, "VP_WIN": pos, "VP_WIN_END": pos + 1, "VP_WINSZ": 1},
+            unwind=ln + 12, timeout=300, cost=10,
+            desc="stride/word/tail paths: ldb_crc32c_extend == bitwise CRC-32C, one arbitrary byte at the given "
+                 "position, the other bytes a fixed pattern, fixed initial crc",
+            bounds="length %d, pointer %d mod 4, byte %d arbitrary" % (ln, mis, pos)))
+for ln in list(range(16, 71)) + [273, 300]:
+    mis = ln % 4
+    step = 1 if ln <= 70 else 16
+    for pos in range(0, ln, step):
+        if (ln, mis) in W_QUICK and pos in W_QUICK[(ln, mis)]:
+            continue
+        OBLIGATIONS.append(crc_obl(
+            "k.window1-L%d-M%d-P%d" % (ln, mis, pos), 2, "thorough",
+            defs={"VP_LEN": ln, "VP_MIS": mis, "VP_WIN": pos, "VP_WIN_END": pos + 1, "VP_WINSZ": 1},
+            unwind=ln + 12, timeout=600, cost=10 + ln // 10,
+            desc="stride/word/tail%s paths: ldb_crc32c_extend == bitwise CRC-32C, one arbitrary byte at the given "
+                 "position, the other bytes a fixed pattern, fixed initial crc" % ("/prefetch-loop" if ln > 256 else ""),
+            bounds="length %d, pointer %d mod 4, byte %d arbitrary" % (ln, mis, pos)))
+for pos in (0, 4, 12, 16, 18):
+    OBLIGATIONS.append(crc_obl(
+        "k.window2-L20-M0-P%d" % pos, 2, "thorough",
+        defs={"VP_LEN": 20, "VP_MIS": 0, "VP_WIN": pos, "VP_WIN_END": pos + 1, "VP_WINSZ": 2},
+        unwind=32, timeout=1800, cost=120,
+        desc="stride path: ldb_crc32c_extend == bitwise CRC-32C, two arbitrary adjacent bytes, rest fixed",
+        bounds="length 20, aligned, bytes %d..%d arbitrary" % (pos, pos + 1)))
+
+# alteration / resynchronisation: layouts without trailer or empty fragment in the first block and with the
+# last record wholly in the second block
+A_QUICK = (0, 4, 6, 7)
+for pos in range(0, 8):
+    OBLIGATIONS.append(rt_obl("e", "alter1", 2, BLK - 8, (2, 1), "quick" if pos in A_QUICK else "thorough",
+                              timeout=400 if pos in A_QUICK else 900, pos=pos))
+for pos in range(0, 20):
+    OBLIGATIONS.append(rt_obl("e", "alter1", 2, BLK - 20, (5, 3, 2), "thorough", timeout=1800, pos=pos))
 
 META = {
     "level": "model_checking",
